@@ -234,6 +234,8 @@ PROPS = {
     "C07": dict(fams=[("core", 3), ("crash", 2)], corpus=["core", "crash"], mc="MC_core3", mc_deep="MC_core3_deep", gen=[("Gen_core3", ["a", "b", "c"], 40)]),
     "C08": dict(fams=[("core", 2), ("crash", 3)], corpus=["core", "crash"], mc="MC_crash3", mc_deep="MC_crash3_deep"),
     "C14": dict(fams=[("crash", 5)], corpus=["crash"], mc="MC_crash3", mc_deep="MC_crash3_deep"),
+    "C12": dict(storage=True),
+    "C13": dict(storage=True),
     "C15": dict(fams=[("core", 2), ("crash", 3)], corpus=["core", "crash"], mc="MC_core3"),
     "C18": dict(fams=[("core", 1)], corpus=["api"], api=True, mc=None),
 }
@@ -260,6 +262,8 @@ def gen_scenarios(prop, tier, seed, workdir):
 
 
 def run_check(prop, tier, seed, keep=False):
+    if PROPS[prop].get("storage"):
+        return run_storage_check(prop, tier, seed, keep)
     t0 = time.time()
     spec = PROPS[prop]
     workdir = os.path.join(OUT, "%s-%s-%d" % (prop, tier, seed))
@@ -396,6 +400,154 @@ def run_check(prop, tier, seed, keep=False):
     if recorder:
         return 2
     return 0
+
+
+# ---- storage sweeps (C12, C13) ---------------------------------------------------------------
+
+def log_program(rng, nops):
+    """a well-formed program over the Log API (indices continue, boundaries exist)"""
+    prog = [{"op": "open"}]
+    base, last, term, is_open = 0, 0, 1, True
+    for _ in range(nops):
+        if not is_open:
+            prog.append({"op": "open"})
+            is_open = True
+            continue
+        c = rng.choice(["append", "append", "append2", "truncate", "compact", "discard", "close", "append"])
+        if c in ("append", "append2"):
+            n = 1 if c == "append" else rng.choice([2, 3])
+            term += rng.choice([0, 0, 1])
+            ents = [{"i": last + j + 1, "t": term, "k": rng.choice([0, 1, 1, 2]), "n": rng.choice([0, 1, 7, 300, 5000])} for j in range(n)]
+            prog.append({"op": "append", "ents": ents})
+            last += n
+        elif c == "truncate" and last > base:
+            i = rng.randint(base + 1, last)
+            prog.append({"op": "truncate", "i": i})
+            last = i - 1
+        elif c == "compact" and last > base:
+            i = rng.randint(base + 1, last)
+            prog.append({"op": "compact", "i": i})
+            base = i
+        elif c == "discard":
+            i = last + rng.choice([0, 3])
+            term += 1
+            prog.append({"op": "discard", "i": i, "t": term})
+            base = last = i
+        elif c == "close":
+            prog.append({"op": "close"})
+            is_open = False
+    return prog
+
+
+def store_program(rng, nops, maxsnaps):
+    prog, idx = [], 0
+    for _ in range(nops):
+        c = rng.choice(["set", "set", "snap", "snap", "snapd"])
+        if c == "set":
+            prog.append({"op": "set", "t": rng.randint(0, 9), "vote": rng.choice(["", "a", "node-b"])})
+        else:
+            idx += rng.randint(1, 3)
+            prog.append({"op": "snap_write" if c == "snap" else "snap_discard", "i": idx, "t": rng.randint(1, 3),
+                         "size": rng.choice([0, 10, 32768, 32769, 70000]), "cfg": "cfg%d" % idx})
+    return prog
+
+
+def run_storage_check(prop, tier, seed, keep=False):
+    import storage, shutil
+    from concurrent.futures import ThreadPoolExecutor
+    t0 = time.time()
+    workdir = os.path.join(OUT, "%s-%s-%d" % (prop, tier, seed))
+    shutil.rmtree(workdir, ignore_errors=True)
+    os.makedirs(workdir)
+    storage.build_driver()
+    nprog = 32 if tier == "quick" else 1200
+    progs = []
+    for i in range(nprog):
+        rng = random.Random(sseed(seed, prop, i))
+        if prop == "C12":
+            progs.append(("log-%d-%d" % (seed, i), log_program(rng, rng.choice([2, 3, 4, 5, 8] if tier == "quick" else [3, 5, 8, 12])),
+                          [{"op": "open"}, {"op": "append_next"}, {"op": "close"}]))
+        else:
+            many = (i % 8 == 0)
+            progs.append(("store-%d-%d" % (seed, i), store_program(rng, (12 if tier == "quick" else 42) if many else rng.choice([2, 3, 5]), 40),
+                          [{"op": "set", "t": 11, "vote": "post"}, {"op": "snap_write", "i": 900 + i, "t": 9, "size": 5, "cfg": "post"}]))
+    # committed regression programs
+    for p in sorted(glob.glob(os.path.join(ROOT, "corpus", "storage-" + prop, "*.json"))):
+        with open(p) as f:
+            d = json.load(f)
+        progs.append(("corpus-" + os.path.basename(p)[:-5], d["prog"], d["post"]))
+
+    def one(k):
+        name, prog, post = progs[k]
+        tr = os.path.join(workdir, "trace-%03d.ndjson" % (k % driver.NPROC))
+        return storage.sweep_program(name, prog, post, tr + ".%d" % k, rng=random.Random(sseed(seed, "pfx", k)))
+    with ThreadPoolExecutor(max_workers=driver.NPROC) as ex:
+        stats = list(ex.map(one, range(len(progs))))
+    # concatenate per-thread pieces into one trace per worker slot
+    traces = []
+    for w in range(driver.NPROC):
+        parts = sorted(glob.glob(os.path.join(workdir, "trace-%03d.ndjson.*" % w)))
+        if not parts:
+            continue
+        tr = os.path.join(workdir, "trace-%03d.ndjson" % w)
+        with open(tr, "w") as out:
+            for p in parts:
+                out.write(open(p).read())
+                os.remove(p)
+        traces.append(tr)
+    t_run = time.time() - t0
+    with ThreadPoolExecutor(max_workers=max(1, driver.NPROC // 2)) as ex:
+        res = list(ex.map(lambda t: driver.run_monitor(t, {prop}, workdir, module="StoreMon", extra_modules=["StoreAbs.tla"]), traces))
+    for r in res:
+        if not r["accepted"]:
+            raise NoVerdict("TLC did not accept trace %s as fully consumed:\n%s" % (r["trace"], r["out"][-2500:]))
+    mc = None
+    if prop == "C12" and not os.environ.get("VERIF_NOMC"):
+        mc = driver.model_check("MC_logstore" if tier == "quick" else "MC_logstore_deep", workdir, TIER[tier]["mc_timeout"], driver.NPROC // 2,
+                                ("StoreAbs.tla",), None, 0, "LogStore")
+    if prop == "C13" and not os.environ.get("VERIF_NOMC"):
+        mc = driver.model_check("MC_filestores", workdir, TIER[tier]["mc_timeout"], driver.NPROC // 2, ("StoreAbs.tla",), None, 0, "FileStores")
+    if mc and mc["violated"]:
+        raise NoVerdict("design-level configuration %s reports a counterexample:\n%s" % (mc["cfg"], mc["out"][-3000:]))
+    bad = [b for r in res for b in r["bad"] if b["p"] == prop]
+    hits, rest, tags = driver.split_known(prop, bad)
+    for kf, hs in sorted(hits.items()):
+        log("KNOWN-FINDING: property=%s %s (%d occurrence(s) in this run; %s)" % (prop, tags[kf]["what"], len(hs), kf))
+    seen, viol = set(), []
+    for b in rest:
+        key = (b["sc"].rsplit("-k", 1)[0], b["c"])
+        if key not in seen:
+            seen.add(key)
+            viol.append(b)
+    prog_by = {n: {"prog": p, "post": q} for n, p, q in progs}
+    for b in viol[:20]:
+        path = driver.write_replay(prop, b, {b["sc"]: prog_by.get(b["sc"].rsplit("-k", 1)[0])}, workdir)
+        log("VIOLATION property=%s replay=%s   # %s in %s: %s" % (prop, path, b["c"], b["sc"], b["d"][:200]))
+    kills = sum(s["kills"] for s in stats)
+    prefixes = sum(s["prefix_images"] for s in stats)
+    cov = {"evaluations": kills + prefixes, "distinct_nontrivial": kills + prefixes,
+           "rule": "one evaluation = one crash image of a program run through the public storage API: a real SIGKILL on entry to each storage "
+                   "system call (strace fault injection), plus every sampled byte prefix of an interrupted log append; each image is reopened, "
+                   "extended and reopened again; all are distinct (program, kill point, prefix length); every one is non-trivial (a crash happened)",
+           "samples": [{"program": progs[0][1], "post": progs[0][2], "kill_points": stats[0]["syscalls"], "prefix_images": stats[0]["prefix_images"]}],
+           "programs": len(progs), "kill_points": kills, "byte_prefix_images": prefixes, "reopens": sum(s["reopens"] for s in stats),
+           "traces_validated_against_impl": kills + prefixes, "monitor_states": sum(r["states"] for r in res),
+           "states": (mc or {}).get("states", 0), "transitions": (mc or {}).get("transitions", 0), "mc_config": (mc or {}).get("cfg"),
+           "mc_finished": (mc or {}).get("finished"), "exhaustive": False,
+           "checker_cmd": "tlc StoreMon.tla over recorded directory histories; tlc LogStore.tla / FileStores.tla"}
+    if not cov["states"]:
+        cov.pop("states"), cov.pop("transitions")
+    doc = {"property_id": prop, "tier": tier, "seed": seed, "level": "model_checking", "coverage": cov,
+           "assumptions": ["process-crash model: data of a write(2) that returned survives SIGKILL (no power loss)",
+                           "crash points = entry of every storage system call of the driver's main thread + byte prefixes of log appends",
+                           "strace fault injection delivers SIGKILL before the system call executes"],
+           "wall_s": round(time.time() - t0, 1), "violations": len(viol)}
+    driver.write_evidence(prop, doc)
+    log("property=%s tier=%s seed=%d programs=%d kill_points=%d byte_prefix_images=%d run=%.0fs mc=%s violations=%d" % (
+        prop, tier, seed, len(progs), kills, prefixes, t_run, ("%d states" % mc["states"]) if mc else "none", len(viol)))
+    if not keep and not viol:
+        shutil.rmtree(workdir, ignore_errors=True)
+    return 1 if viol else 0
 
 
 def replay(prop, path):
